@@ -1,9 +1,11 @@
 """C06: servelib.run_property (Serve model / replay / ServeObs) + the control plane at shutdown (Control.tla):
 periodic reloader and watchers -> ReloadChan -> consumer goroutine -> Reload, against Close.  The code-shaped variant of
-the model is checked for NoReloadAfterDestroy (holds since fix F20) and Termination; its remaining counterexample
-(send on the closed ReloadChan when a tick and Close coincide) is a lead that could not be reproduced on the real code
-and is therefore not reported.  The scenario 'Close while the producer is blocked in its send' is replayed on the real
-FBDNSDB (NewFBDNSDB with a 1 s periodic reload over the instrumented backend whose Reload is held at a gate)."""
+the model (select-send, fix F21; Reload checks done, fix F20) is checked for NoSendOnClosedChannel, NoReloadAfterDestroy
+and Termination; the variant with the plain send must still produce its counterexample (the model tells them apart).
+The counterexample's scenario 'Close while the producer is blocked in its send' is replayed on the real FBDNSDB
+(NewFBDNSDB with a 1 s periodic reload over the instrumented backend whose Reload is held at a gate), several instances
+at once: a crash is C14's violation, a reload on the destroyed backend is C06's."""
+import concurrent.futures
 import json
 import os
 import subprocess
@@ -17,22 +19,32 @@ def control(rep, pid="C06"):
     thorough = tier() == "thorough"
     with Scratch() as sc:
         base = "SPECIFICATION Spec\nCONSTANTS Producers = {%s} SelectSend = %s ReloadChecksDone = %s MaxTicks = %d\n"
-        sc.write("ideal.cfg", base % ("1, 2", "TRUE", "TRUE", 4 if thorough else 3) + "INVARIANTS NoSendOnClosedChannel NoReloadAfterDestroy\nPROPERTY Termination\n")
-        r1 = tlc(sc, "Control", "ideal.cfg", workers=8, timeout=1500)
-        sc.write("code.cfg", base % ("1, 2", "FALSE", "TRUE", 4 if thorough else 3) + "INVARIANTS NoReloadAfterDestroy\nPROPERTY Termination\n")
-        r2 = tlc(sc, "Control", "code.cfg", workers=8, timeout=1500)
+        # the code (since fix F21): select-send, consumer watches done, ReloadChan is never closed
+        sc.write("code.cfg", base % ("1, 2", "TRUE", "TRUE", 4 if thorough else 3) + "INVARIANTS NoSendOnClosedChannel NoReloadAfterDestroy\nPROPERTY Termination\n")
+        r1 = tlc(sc, "Control", "code.cfg", workers=8, timeout=1500)
+        # the protocol before F21: everything but the send on the closed channel holds ...
+        sc.write("before.cfg", base % ("1, 2", "FALSE", "TRUE", 4 if thorough else 3) + "INVARIANTS NoReloadAfterDestroy\nPROPERTY Termination\n")
+        r2 = tlc(sc, "Control", "before.cfg", workers=8, timeout=1500)
+        # ... and the model tells the two protocols apart (regression variant; not vacuous)
         sc.write("lead.cfg", base % ("1", "FALSE", "TRUE", 2) + "INVARIANTS NoSendOnClosedChannel\n")
         r3 = tlc(sc, "Control", "lead.cfg", workers=4, timeout=600, allow_violation=True)
-    log("[control] Control.tla: repaired design %d states ok; code variant %d states: no reload after destroy, terminates; send-on-closed-channel lead: %s"
-        % (r1["distinct"], r2["distinct"], r3["violated"]))
+        if r3["violated"] != "NoSendOnClosedChannel":
+            raise vlib.Infra("Control.tla no longer distinguishes the plain send from the select-send (expected a NoSendOnClosedChannel counterexample)")
+    log("[control] Control.tla: code (select-send) %d states: no send on a closed channel, no reload after destroy, terminates; plain-send variant %d states; "
+        "regression variant violates %s" % (r1["distinct"], r2["distinct"], r3["violated"]))
+    # replay of the counterexample's schedule on the real control plane: several instances at once - the load is what
+    # makes the scheduler pick the tick case after done was closed (18 of 24 crashed that way before fix F21)
     trace = os.path.join(vlib.OUT, "%s-control.ndjson" % pid.lower())
-    rows = []
-    for i in range(4 if thorough else 1):
-        one = os.path.join(vlib.OUT, "%s-control-%d.ndjson" % (pid.lower(), i))
-        p = vlib.run_vh(["control", "-out", one, "-hold", str(1300 + 150 * i)], timeout=120, check=False)
+    n = 24 if thorough else 8
+    ones = [os.path.join(vlib.OUT, "%s-control-%d.ndjson" % (pid.lower(), i)) for i in range(n)]
+    with concurrent.futures.ThreadPoolExecutor(max_workers=n) as ex:
+        procs = list(ex.map(lambda i: vlib.run_vh(["control", "-out", ones[i], "-hold", str(1300 + 150 * (i % 4))], timeout=180, check=False), range(n)))
+    rows, crashes = [], 0
+    for one, p in zip(ones, procs):
         if p.returncode != 0:
             tail = (p.stderr or "")[-1500:]
             if "send on closed channel" in tail or "panic:" in tail or "fatal error" in tail:
+                crashes += 1
                 if pid == "C14":          # a crash at shutdown is C14's business; C06 only judges what happens to the backends
                     rep.violation("crash|control|" + ("send-on-closed-channel" if "send on closed channel" in tail else "panic"),
                                   "the control plane crashed at shutdown: " + tail[-700:], {"stderr": tail})
@@ -45,8 +57,9 @@ def control(rep, pid="C06"):
         for rej in res["rejects"]:
             e = rows[rej[0] - 1]
             rep.violation("%s|control|%s" % (rej[1], e.get("scenario")), "control plane scenario %s: %s" % (e.get("scenario"), json.dumps(e)), {"events": rows})
-    rep.cov["control_plane"] = {"states": r1["distinct"] + r2["distinct"] + r3["distinct"], "replays": len([r for r in rows if r["ev"] == "control"]),
-                                "unreproduced_lead": "NoSendOnClosedChannel (%s)" % r3["violated"]}
+    log("[control] %d replays of close-while-sender-blocked on the real control plane, %d crashed" % (n, crashes))
+    rep.cov["control_plane"] = {"states": r1["distinct"] + r2["distinct"] + r3["distinct"], "replays": len([r for r in rows if r["ev"] == "control"]), "crashed": crashes,
+                                "regression_variant": "plain send + close(ReloadChan): TLC reports %s" % r3["violated"]}
     rep.cov["states"] = rep.cov.get("states", 0) + r1["distinct"] + r2["distinct"]
     rep.cov["transitions"] = rep.cov.get("transitions", 0) + r1["generated"] + r2["generated"]
 
